@@ -13,11 +13,11 @@ TECHNIQUE = ('property-based testing: generated interleavings of local and peer 
 RULE = ('cases: histories (6..40 steps) of locally opened ids (in order, skipping, out of order, wrong parity, near, at '
         'and above 2^31-1), promised ids, peer-opened ids and peer PUSH_PROMISE ids (same variety up to 2^31-1), '
         'stream closings (END_STREAM both ways, resets from either side, clean-up), get_next_available_stream_id '
-        'queries and PRIORITY frames on arbitrary ids; the same history is replayed without its PRIORITY frames and '
+        'queries, acknowledged changes of the local MAX_CONCURRENT_STREAMS (0, 1, 2, 100) and PRIORITY frames on arbitrary ids; the same history is replayed without its PRIORITY frames and '
         'must give identical reactions; non-trivial = >= 3 opens on each side (or 5 on one) and at least one '
         'rejected id; distinct by trace')
 ASSUMPTIONS = ['K03: streams hit by a state-machine refusal are not used again']
-TIERS = {'quick': {'cases': 4000, 'size': 300},
+TIERS = {'quick': {'cases': 6000, 'size': 300},
          'thorough': {'cases': 1200000, 'size': 400}}
 TOP = 2**31 - 1
 
@@ -72,13 +72,16 @@ def apply_op(w, op, r):
             if op[2] > TOP:
                 w.violate('promised-id-above-2^31-1', str(op[2]))
     elif kind in ('open-local-bad', 'push-bad'):
-        # an open / a promise that is refused because of its header list (validation runs after the stream
-        # object exists): the id was never used, every watermark stays where it was
+        # an open / a promise that is refused because of its header list (a list validation refuses, or text
+        # that cannot be encoded; either is noticed after the stream object exists): the id was never used, every
+        # watermark stays where it was
+        bad = BAD_REQ if op[3] == 'invalid' else list(REQ) + [('x-bad-text', 'v\udcff')]
         if kind == 'open-local-bad':
-            o = w.s.call('send_headers', op[1], BAD_REQ, end_stream=op[2])
+            o = w.s.call('send_headers', op[1], bad, end_stream=op[2])
         else:
-            o = w.s.call('push_stream', op[1], op[2], BAD_REQ)
-        r.step(kind, op[1], op[2], o.brief())
+            o = w.s.call('push_stream', op[1], op[2], bad)
+        r.step(kind, op[1], op[2], op[3], o.brief())
+        r.labels.add('refused-open:' + op[3])
         res = 'refused'
         if o.ok:
             w.violate('invalid-header-list-accepted:%s' % kind, repr(o.frames)[:120])
@@ -98,6 +101,18 @@ def apply_op(w, op, r):
             res, o = w.recv_rst(op[1])
     elif kind == 'respond':
         res, o = w.send_headers(op[1], 'final', op[2])
+    elif kind == 'limit':
+        # our MAX_CONCURRENT_STREAMS changes and the peer acknowledges at once: HEADERS on ids that are not new
+        # (closed, reset, forgotten) are judged by what happened to the id, never by the limit
+        o1 = w.s.call('update_settings', {wire.S_MAX_CONCURRENT_STREAMS: op[1]})
+        o2 = w.s.feed(wire.settings(ack=True)) if o1.ok else o1
+        r.step('local MAX_CONCURRENT_STREAMS', op[1], o1.brief(), 'acknowledged', o2.brief())
+        if not o1.ok or not o2.ok:
+            w.violate('harness:stream-limit-change-failed', '%s %s' % (o1.brief(), o2.brief()))
+            w.stop = True
+        else:
+            w.m.local_max_streams = op[1]
+            r.labels.add('local-stream-limit-%s' % ('low' if op[1] < 3 else 'default'))
     elif kind == 'cleanup':
         w.s.c.open_inbound_streams
         w.s.c.open_outbound_streams
@@ -147,8 +162,8 @@ def run_case(data):
         usable = sorted(s for s in m.streams if s not in w.tainted)
         kind = ch.weighted([(6, 'open-local' if client else 'push'), (6, 'open-peer' if not client else 'peer-push'),
                             (3, 'local-end'), (3, 'peer-end'), (2, 'respond'), (4, 'prio'), (2, 'query'),
-                            (1, 'cleanup'), (2, 'open-local-bad' if client else 'push-bad')] +
-                           ([(4, 'peer-headers-on-promised')] if client else []))
+                            (1, 'cleanup'), (2, 'open-local-bad' if client else 'push-bad'), (1, 'limit')] +
+                           ([(4, 'peer-headers-on-promised')] if client else []) + [(2 if client else 1, 'peer-headers-on-own')])
         op = None
         if kind == 'open-local':
             sid = pick_id(ch, w.next_local_id(), m.hi_local, 1)
@@ -159,7 +174,7 @@ def run_case(data):
             sid = w.next_local_id()
             if sid > TOP or m.send_headers_verdict(sid, 'final', False)[0] != M.PERMIT:
                 continue
-            op = (kind, sid, ch.chance(64))
+            op = (kind, sid, ch.chance(64), ch.pick(['invalid', 'unencodable']))
         elif kind == 'push-bad':
             parents = [s for s in usable if s % 2 == 1 and m.get(s).state in (M.OPEN, M.HC_REMOTE)]
             if not parents:
@@ -167,7 +182,7 @@ def run_case(data):
             par = ch.pick(parents)
             if w.next_local_id() > TOP or m.push_verdict(par, w.next_local_id())[0] != M.PERMIT:
                 continue
-            op = (kind, par, w.next_local_id())
+            op = (kind, par, w.next_local_id(), ch.pick(['invalid', 'unencodable']))
         elif kind == 'push':
             parents = [s for s in usable if s % 2 == 1 and m.get(s).state in (M.OPEN, M.HC_REMOTE)]
             if not parents:
@@ -182,6 +197,17 @@ def run_case(data):
             # HEADERS from the server on an even id: the response on a promised stream, or a late / repeated
             # block on one that is closed (by reset, or normally) or was never promised
             sid = pick_id(ch, w.next_peer_id(), m.hi_peer, 0)
+            if sid > TOP or sid in w.tainted:
+                continue
+            op = ('open-peer', sid, ch.chance(128))
+        elif kind == 'peer-headers-on-own':
+            # HEADERS from the peer on an id of our parity: the answer on a stream we opened, a late or repeated
+            # block on one that is closed, reset or forgotten, or an id we never used
+            own = [s for s in usable if m.is_local_id(s)]
+            if own and ch.chance(224):
+                sid = ch.pick(own)
+            else:
+                sid = pick_id(ch, w.next_local_id(), m.hi_local, 1 if client else 0)
             if sid > TOP or sid in w.tainted:
                 continue
             op = ('open-peer', sid, ch.chance(128))
@@ -228,6 +254,8 @@ def run_case(data):
             op = (kind, sid, dep, ch.int(1, 256), ch.bool())
         elif kind == 'query':
             op = (kind,)
+        elif kind == 'limit':
+            op = (kind, ch.pick([0, 1, 2, 100]))
         else:
             op = (kind,)
         nrej = w.rejected
@@ -237,9 +265,10 @@ def run_case(data):
         ops.append(op)
         if kind in ('open-local', 'push'):
             local_opens += 1
-        if kind in ('open-peer', 'peer-push', 'peer-headers-on-promised'):
+        if kind in ('open-peer', 'peer-push', 'peer-headers-on-promised', 'peer-headers-on-own'):
             peer_opens += 1
-        if w.rejected > nrej and kind in ('open-local', 'push', 'open-peer', 'peer-push', 'peer-headers-on-promised'):
+        if w.rejected > nrej and kind in ('open-local', 'push', 'open-peer', 'peer-push', 'peer-headers-on-promised',
+                                          'peer-headers-on-own'):
             rejected += 1
     # metamorphic replay without the PRIORITY frames
     if not r.violations and any(op[0] == 'prio' for op in ops):
